@@ -27,7 +27,7 @@ def seq(tokens, ok_only=True):
     return [norm(t) for t in tokens if t.ok or not ok_only]
 
 
-STREAM = re.compile(r"^(INT|LONG|RAW:[^*]*|RECUR|BLOCKHDR)(\**)$")
+STREAM = re.compile(r"^(INT|LONG|RAW:[^*]*|RAWPARTIAL:[^*]*|RECUR|BLOCKHDR)(\**)$")
 
 
 def stream(seq_):
